@@ -69,7 +69,10 @@ ConvOf(f, t) == CHOOSE c \in ConvTable : c.from = f /\ c.to = t
 (*   tbl    api "table" (as_per_substance_html_table: one printed number per substance row): how the      *)
 (*          container of values is ordered relative to the substances - "same" | "reversed" | "rotated"  *)
 (*          | "extra" (a dict with further keys) | "list" (values by position); "" otherwise           *)
-DefaultOpt == [api |-> "number", impl |-> FALSE, fsty |-> "g", xty |-> "float", uname |-> "", ucv |-> NoConv, tbl |-> ""]
+(*   pset   printer settings of Reaction.string away from their defaults: "unitfmt" (a caller-supplied   *)
+(*          unit_fmt), "sep" (another Reaction_param_separator), "named" (with_name=True on a named      *)
+(*          reaction: the name follows the parameter); "" otherwise                                     *)
+DefaultOpt == [api |-> "number", impl |-> FALSE, fsty |-> "g", xty |-> "float", uname |-> "", ucv |-> NoConv, tbl |-> "", pset |-> ""]
 DefaultPrec(api) == IF api = "rxnstring" THEN 3 ELSE 5
 DefaultUncPrec == 2
 
@@ -249,7 +252,10 @@ Options(o) ==
     \* ("uq": a quantity that carries an uncertainty, as parameter of a printed reaction: value and unit are shown)
     /\ o.xty \in {"float", "int", "npfloat", "nparray", "npint", "uq"}
     /\ (o.xty = "uq" => (o.uname # "" /\ (o.api = "rxnstring" \/ (o.api = "number" /\ o.impl)) /\ o.ucv = NoConv))
-    /\ o.tbl \in {"", "same", "reversed", "rotated", "extra", "list"}
+    \* ("alias": the substances mapping is keyed by aliases that differ from the substance names;
+    \*  "nosubst": no substances mapping is given, the rows follow the container)
+    /\ o.tbl \in {"", "same", "reversed", "rotated", "extra", "list", "alias", "nosubst"}
+    /\ o.pset \in {"", "unitfmt", "sep", "named"} /\ (o.pset # "" => o.api = "rxnstring")
     /\ ((o.tbl # "") <=> (o.api = "table"))
     /\ (o.api = "table" => (o.impl /\ o.fsty = "g" /\ o.ucv = NoConv /\ o.xty \in {"float", "npfloat"}))
     /\ (o.xty \in {"int", "npint"} => IsIntegral(x))
@@ -371,6 +377,7 @@ Class ==
          \o (IF opt # DefaultOpt THEN "-opt" ELSE "") \o (IF opt.impl THEN "-impl" ELSE "")
          \o (IF opt.fsty = "e" THEN "-e" ELSE "") \o (IF opt.xty # "float" THEN "-" \o opt.xty ELSE "")
          \o (IF opt.api # "number" THEN "-" \o opt.api ELSE "") \o (IF opt.tbl # "" THEN "-" \o opt.tbl ELSE "")
+         \o (IF opt.pset # "" THEN "-" \o opt.pset ELSE "")
          \o (IF DisplayName \in RatioUnits THEN "-ratio" ELSE "")
          \o (IF conv # NoConv THEN "-conv" ELSE "")
     ELSE IF mode = "uncert"
